@@ -42,7 +42,7 @@ class Main(Part):
 
     def budget(self, tier):
         return {"quick": dict(examples=350, shards=6, seconds=80),
-                "thorough": dict(examples=3000, shards=16, seconds=900)}[tier]
+                "thorough": dict(examples=3000, shards=16, seconds=600)}[tier]
 
     def strategy(self, tier):
         return gen.corpus_case(max_extent=4 if tier == "quick" else 6, spacetime_ratio=10 ** 9, static_only=False)
